@@ -11,7 +11,7 @@
    (nodes e = c_n c); and [honest_signs_only_broadcasts]: whatever an honest member signed for duty d
    abstracts to an element of l (Net.v's [sent]). *)
 From Coq Require Import List ZArith NArith Bool.
-From Charon Require Import Flow.WireMsg Flow.WireMsgFacts Flow.WireToNet Flow.WireMsgCorr Qbft.Model Qbft.Net.
+From Charon Require Import Flow.WireMsg Flow.WireMsgFacts Flow.WireToNet Flow.WireMsgCorr Flow.WireSend Flow.WireCompose Flow.WireSendCorr Qbft.Model Qbft.Net.
 Import ListNotations.
 
 Theorem C05_bridge_accepted_is_deliverable :
@@ -68,3 +68,104 @@ Theorem C05_bridge_abstraction_example :
     msg_deliv_b BridgeEx.cfg4 (just m) m = false.
 Proof. exact BridgeEx.abstraction_example. Qed.
 Print Assumptions C05_bridge_abstraction_example.
+
+(* ------------------------------------------------------------------------------------------------ *)
+(* Sending side (Flow/WireSend.v: transport.Broadcast -> createMsg -> signMsg, ProcessReceives) and the
+   composed system (Flow/WireCompose.v). *)
+
+(* sign_only_in_broadcast: everything a transport ever signed is the content built from the arguments
+   of a successful Broadcast call (ghost signing log of the model). *)
+Theorem C05_send_sign_only_in_broadcast :
+  forall (key sigT ebytes digest typeurl vbytes extra : Type)
+    (encode : content extra -> ebytes) (H : ebytes -> digest) (sign : key -> digest -> sigT) (extra0 : extra)
+    (weq : wire sigT typeurl vbytes extra -> wire sigT typeurl vbytes extra -> bool)
+    (k : key) (ls : list (slabel sigT typeurl vbytes extra)) (st : sstate key typeurl vbytes extra),
+  srun encode H sign extra0 weq (sinit typeurl vbytes extra k) ls = Some st ->
+  forall c, In c (s_log st) ->
+  exists a newv w, In (SBcast a newv (Some w)) ls /\ c = content_of extra0 a.
+Proof. exact sign_only_in_broadcast_init. Qed.
+Print Assumptions C05_send_sign_only_in_broadcast.
+
+(* A successful Broadcast sends wire_of(arguments, values) where the values are the cache bindings of
+   exactly the needed hashes, and signs exactly content_of(arguments); a failing one signs nothing. *)
+Theorem C05_send_values_from_cache :
+  forall (key sigT ebytes digest typeurl vbytes extra : Type)
+    (encode : content extra -> ebytes) (H : ebytes -> digest) (sign : key -> digest -> sigT) (extra0 : extra)
+    (st : sstate key typeurl vbytes extra) (a : bargs sigT extra) (newv : option (N * value typeurl vbytes))
+    (st' : sstate key typeurl vbytes extra) (w : wire sigT typeurl vbytes extra) (vals : vmap typeurl vbytes),
+  do_bcast encode H sign extra0 st a newv = (st', Some (w, vals)) ->
+  w = wire_of encode H sign extra0 (s_key st) a vals /\ map fst vals = needed a /\
+  (forall h v, In (h, v) vals -> vlookup (drain newv (s_cache st)) h = Some v) /\
+  s_log st' = s_log st ++ [content_of extra0 a].
+Proof. exact bcast_values_from_cache. Qed.
+Print Assumptions C05_send_values_from_cache.
+
+Theorem C05_send_error_signs_nothing :
+  forall (key sigT ebytes digest typeurl vbytes extra : Type)
+    (encode : content extra -> ebytes) (H : ebytes -> digest) (sign : key -> digest -> sigT) (extra0 : extra)
+    (st : sstate key typeurl vbytes extra) (a : bargs sigT extra) (newv : option (N * value typeurl vbytes))
+    (st' : sstate key typeurl vbytes extra),
+  do_bcast encode H sign extra0 st a newv = (st', None) -> s_log st' = s_log st.
+Proof. exact bcast_error_signs_nothing. Qed.
+Print Assumptions C05_send_error_signs_nothing.
+
+(* wire_roundtrip: the wire message abstracts back to the Bcast output it was built for; the
+   justification list is preserved in order. *)
+Theorem C05_send_wire_roundtrip :
+  forall (key sigT ebytes digest typeurl vbytes extra : Type)
+    (encode : content extra -> ebytes) (H : ebytes -> digest) (sign : key -> digest -> sigT) (extra0 : extra)
+    (k : key) (a : bargs sigT extra) (vals : vmap typeurl vbytes),
+  abs_wire (wire_of encode H sign extra0 k a vals) =
+  Some (mkm (absb (content_of extra0 a)) (map (fun j => absb (p_c j)) (a_just a))).
+Proof. exact wire_roundtrip. Qed.
+Print Assumptions C05_send_wire_roundtrip.
+
+Theorem C05_send_args_of_bmsg_roundtrip :
+  forall (sigT extra : Type) (extra0 : extra) (d : dutyv) (b : bmsg) (J : list (part sigT extra)),
+  absb (content_of extra0 (args_of d b J)) = b.
+Proof. exact args_of_bmsg_roundtrip. Qed.
+Print Assumptions C05_send_args_of_bmsg_roundtrip.
+
+(* Premise (a) of the bridge as a theorem of the composed system (node_ok: every honest member runs
+   WireSend on top of its qbft.Run, the Broadcast callback of instance d being the transport's Broadcast). *)
+Theorem C05_bridge_honest_signs_only_broadcasts :
+  forall (key sigT ebytes digest typeurl vbytes extra : Type)
+    (encode : content extra -> ebytes) (H : ebytes -> digest) (sign : key -> digest -> sigT) (extra0 : extra)
+    (weq : wire sigT typeurl vbytes extra -> wire sigT typeurl vbytes extra -> bool)
+    (c : cfg) (d : dutyv) (nt : net) (tr : list (nat * label)),
+  nreach c nt tr ->
+  forall (keyof : nat -> key) (nruns : nat -> list (dutyv * list (slabel sigT typeurl vbytes extra))),
+  node_ok encode H sign extra0 weq c d tr keyof nruns ->
+  forall k cnt, node_signed encode H sign extra0 weq c keyof nruns k cnt -> c_duty cnt = Some d ->
+  In (absb cnt) (sent nt).
+Proof. exact composed_honest_signs_only_broadcasts. Qed.
+Print Assumptions C05_bridge_honest_signs_only_broadcasts.
+
+(* The bridge with the sending side included: premise (a) replaced by node_ok. *)
+Theorem C05_bridge_accepted_is_deliverable_composed :
+  forall (key sigT ebytes digest typeurl vbytes cbytes extra : Type)
+    (encode : content extra -> ebytes) (H : ebytes -> digest) (verify : key -> digest -> sigT -> bool)
+    (decode : typeurl -> vbytes -> option cbytes) (Hv : cbytes -> N) (sign : key -> digest -> sigT) (extra0 : extra)
+    (weq : wire sigT typeurl vbytes extra -> wire sigT typeurl vbytes extra -> bool)
+    (c : cfg) (d : dutyv) (e : env key) (nt : net) (tr : list (nat * label)),
+  nreach c nt tr ->
+  forall (keyof : nat -> key) (nruns : nat -> list (dutyv * list (slabel sigT typeurl vbytes extra))),
+  node_ok encode H sign extra0 weq c d tr keyof nruns ->
+  (forall x y, encode x = encode y -> x = y) ->
+  (forall x y, H x = H y -> x = y) ->
+  (forall k cnt s, honest_key c e k -> verify k (H (encode cnt)) s = true ->
+                   exists c0, node_signed encode H sign extra0 weq c keyof nruns k c0 /\ H (encode c0) = H (encode cnt)) ->
+  WireMsg.nodes e = c_n c ->
+  forall (st : WireMsg.state sigT typeurl vbytes extra) (id : N) req dl st' (w : wire sigT typeurl vbytes extra),
+  handle encode H verify decode Hv e st id req = (Accept, dl, st') ->
+  req = Some w -> wire_duty req = Some d ->
+  exists m, abs_wire w = Some m /\ msg_deliv c (sent nt) m /\
+            length (just m) = length (w_just w) /\ length (just m) <= 2 * c_n c.
+Proof. exact accepted_is_deliverable_composed. Qed.
+Print Assumptions C05_bridge_accepted_is_deliverable_composed.
+
+(* Non-vacuity of the transport model: missing value (error), own value drained and attached, a re-typed
+   value received (F11) replaces the cached one and is re-broadcast. *)
+Theorem C05_send_nonvacuous : c_sfirst_reject (sinit N N N SendEx.k0) SendEx.trace 0 = None.
+Proof. exact SendEx.trace_accepted. Qed.
+Print Assumptions C05_send_nonvacuous.
